@@ -79,7 +79,7 @@ def mc_jobs(ctx):
                      want, prop, 900))
     big = ctx.thorough
     mc("machine-handle", "handle", [], MC_ALL, {"L": 11 if big else 9, "MaxS": 3 if big else 2}, "ok")
-    mc("machine-delivery", "delivery", [], MC_ALL, {"L": 9 if big else 8, "Caps": I(1, 2), "MaxM": 3}, "ok")
+    mc("machine-delivery", "delivery", [], MC_ALL, {"L": 9 if big else 7, "Caps": I(1, 2), "MaxM": 3}, "ok")
     mc("machine-net", "net", [], MC_ALL, {"L": 9 if big else 7}, "ok")
     mc("machine-joinopt-repaired", "joinopt", [], MC_ALL, {"JoinOpts": S("", "K")}, "ok")
     for d, alpha, prop, over in MC_SEEDED:
@@ -203,26 +203,26 @@ def seq_plan(ctx):
     bound; a class larger than its budget is sampled by seed."""
     t = ctx.thorough
     return [
-        ("handle", dict(L=7 if t else 6, Alpha=S(*HANDLE)), 5000, 60000),
-        ("handle-2topics", dict(L=5 if t else 4, Alpha=S("join", "close", "sub", "cancel", "relay", "unrelay", "psub"), GT=S("A", "B"), MaxH=3, MaxS=3), 3000, 20000),
-        ("delivery", dict(L=7 if t else 6, Alpha=S("sub", "cancel", "next", "pub", "close"), Caps=I(1, 2), ProName='"joinA"', MaxS=2, MaxM=5), 5000, 50000),
+        ("handle", dict(L=7 if t else 6, Alpha=S(*HANDLE)), 3000, 60000),
+        ("handle-2topics", dict(L=5 if t else 4, Alpha=S("join", "close", "sub", "cancel", "relay", "unrelay", "psub"), GT=S("A", "B"), MaxH=3, MaxS=3), 1400, 20000),
+        ("delivery", dict(L=7 if t else 6, Alpha=S("sub", "cancel", "next", "pub", "close"), Caps=I(1, 2), ProName='"joinA"', MaxS=2, MaxM=5), 3000, 50000),
         ("closed", dict(L=3, Alpha=S("sub", "relay", "evh", "pub", "addb", "lp", "str", "score", "close", "join", "psub", "ppub", "cancel", "next"),
-                        ProName='"closedA"', Caps=I(1)), 2000, 6000),
-        ("rejoin", dict(L=4 if t else 3, Alpha=S("sub", "relay", "evh", "pub", "close", "join", "cancel", "next", "unrelay"), ProName='"rejoinA"', Caps=I(1)), 2000, 12000),
-        ("hidden", dict(L=5 if t else 4, Alpha=S("psub", "ppub", "join", "close", "cancel", "sub", "next", "plp"), Caps=I(1)), 2000, 10000),
+                        ProName='"closedA"', Caps=I(1)), 1200, 6000),
+        ("rejoin", dict(L=4 if t else 3, Alpha=S("sub", "relay", "evh", "pub", "close", "join", "cancel", "next", "unrelay"), ProName='"rejoinA"', Caps=I(1)), 800, 12000),
+        ("hidden", dict(L=5 if t else 4, Alpha=S("psub", "ppub", "join", "close", "cancel", "sub", "next", "plp"), Caps=I(1)), 800, 10000),
         ("fanout", dict(L=4, Alpha=S("join", "sub", "cancel", "relay", "pub", "close", "next"), JoinOpts=S("fan"), Caps=I(1)), 1500, 5000),
         ("validators", dict(L=5 if t else 4, Alpha=S("reg", "unreg", "pub", "next", "ppub", "addb"), Vals=S("accept", "reject", "ignore", "bad", "rejectTo"),
-                            IdFn='"name"', ProName='"subA12"', MaxM=3), 4000, 30000),
-        ("validators-handles", dict(L=5 if t else 4, Alpha=S("reg", "unreg", "pub", "join", "close"), Vals=S("reject"), ProName='"joinA"', MaxM=3), 1500, 6000),
+                            IdFn='"name"', ProName='"subA12"', MaxM=3), 2500, 30000),
+        ("validators-handles", dict(L=5 if t else 4, Alpha=S("reg", "unreg", "pub", "join", "close"), Vals=S("reject"), ProName='"joinA"', MaxM=3), 600, 6000),
         ("modes", dict(L=2, Alpha=S("pub", "reg", "next"), Modes=S(*ALLMODES), Vals=S("reject", "acceptTo"), ProName='"subA12"', MaxM=6, **NET), 1500, 3000),
         ("score-floodsub", dict(L=3, Alpha=S("score", "close", "join"), ProName='"joinA"'), 200, 200),
         ("score-gossipsub", dict(L=3, Alpha=S("score", "close", "join"), ProName='"joinA"', Router='"gossipsub"'), 200, 200),
         ("score-gossipsub-score", dict(L=3, Alpha=S("score", "close", "join", "sub", "pub"), ProName='"joinA"', Router='"gossipsub-score"'), 400, 400),
         ("joinopt", dict(L=5 if t else 4, Alpha=S("join", "close", "pub", "sub", "next"), JoinOpts=S("", "K"), IdFn='"name"', Caps=I(2), MaxM=3), 1500, 8000),
-        ("net", dict(L=5 if t else 4, Alpha=S("sub", "cancel", "relay", "unrelay", "rmsg", "pub", "next", "lp"), Caps=I(1), ProName='"joinA"', MaxM=4, **NET), 1500, 9000),
+        ("net", dict(L=5 if t else 4, Alpha=S("sub", "cancel", "relay", "unrelay", "rmsg", "pub", "next", "lp"), Caps=I(1), ProName='"joinA"', MaxM=4, **NET), 1000, 9000),
         ("net-validators", dict(L=5 if t else 4, Alpha=S("rmsg", "reg", "unreg", "rel", "next", "cancel"), Caps=I(1),
-                                Vals=S("reject", "ignore", "block1", "block2", "rejectTo", "acceptInl", "rejectInl"), ProName='"subA1"', MaxM=4, **NET), 1500, 9000),
-        ("net-rsub", dict(L=4, Alpha=S("rsub", "pub", "rmsg", "lp", "plp", "relay", "close"), ProName='"joinA"', MaxM=3, NPeers=2, PSubs1=S("A"), PSubs2="{}"), 800, 3000),
+                                Vals=S("reject", "ignore", "block1", "block2", "rejectTo", "acceptInl", "rejectInl"), ProName='"subA1"', MaxM=4, **NET), 1000, 9000),
+        ("net-rsub", dict(L=4, Alpha=S("rsub", "pub", "rmsg", "lp", "plp", "relay", "close"), ProName='"joinA"', MaxM=3, NPeers=2, PSubs1=S("A"), PSubs2="{}"), 500, 3000),
     ]
 
 
@@ -243,7 +243,7 @@ def build_seq_scenarios(ctx, rng):
         classes[name] = {"generated": g.distinct, "replayed": len(got), "exhaustive": exhaustive}
         scns += got
     # seeded simulation: long mixed sequences over (nearly) the whole alphabet
-    n_sim = 400 if not ctx.thorough else 4000
+    n_sim = 300 if not ctx.thorough else 4000
     for name, over in (("long", dict(L=12, Alpha=S(*(HANDLE + ("next", "pub", "ppub", "reg", "unreg", "lp"))), GT=S("A", "B"), Caps=I(1, 2),
                                      Vals=S("accept", "reject", "ignore"), JoinOpts=S("", "fan"), IdFn='"name"', MaxH=4, MaxS=4, MaxR=3, MaxE=2, MaxM=8)),
                        ("long-net", dict(L=10, Alpha=S("sub", "cancel", "relay", "unrelay", "rmsg", "pub", "next", "reg", "unreg", "rel", "close", "join", "rsub"),
@@ -440,6 +440,10 @@ def fmt_ev(ev):
 
 
 def run_seq_level(ctx, rng, binp, seen, only=None):
+    return validate_seq(ctx, replay_seq(ctx, rng, binp, only), seen)
+
+
+def replay_seq(ctx, rng, binp, only=None):
     if only is None:
         scns, gs, gt, classes = build_seq_scenarios(ctx, rng)
     else:
@@ -483,6 +487,11 @@ def run_seq_level(ctx, rng, binp, seen, only=None):
     if not dead and len(done) != len(scns):
         raise vlib.Inconclusive("driver TestX09Seq replayed %d of %d scenarios" % (len(done), len(scns)))
     ctx.log("TestX09Seq: %d scenarios replayed, %d lines" % (len(done), n_lines))
+    return dict(scns=scns, gs=gs, gt=gt, classes=classes, files=files, n_lines=n_lines, done=done, hits=hits, sample=sample)
+
+
+def validate_seq(ctx, r, seen):
+    scns, gs, gt, classes, files, n_lines, done, hits, sample = (r[k] for k in ("scns", "gs", "gt", "classes", "files", "n_lines", "done", "hits", "sample"))
     viols, cov, states = validate_files(ctx, "TopicApiTrace", [tuple(x) for x in files], "tv-seq")
     tags = set()
     for c in cov:
@@ -535,16 +544,16 @@ CALL_OPS = ("join", "close", "sub", "psub", "cancel", "next", "relay", "unrelay"
 def conc_plan(ctx):
     t = ctx.thorough
     return [
-        ("pairs-idle", dict(ProName='"joinA"', Alpha=S("join", "close", "sub", "psub", "relay", "evh", "pub", "ppub", "reg", "unreg", "lp")), 200, 200),
-        ("pairs-one-each", dict(ProName='"oneEach"', Alpha=S(*CALL_OPS)), 200, 200),
-        ("pairs-busy", dict(ProName='"busyA"', Alpha=S("close", "sub", "cancel", "next", "relay", "unrelay", "evcancel", "pub")), 200, 400),
-        ("pairs-released", dict(ProName='"released"', Alpha=S("close", "cancel", "unrelay", "next", "sub", "pub", "join")), 150, 200),
-        ("pairs-two-generations", dict(ProName='"twoGen"', Alpha=S("close", "sub", "cancel", "pub", "next", "relay", "join")), 150, 200),
-        ("triples-sub1", dict(NG=3, ProName='"sub1"', Alpha=S("close", "sub", "cancel", "next", "pub", "psub")), 150 if not t else 400, 400),
-        ("triples-relay1", dict(NG=3, ProName='"relay1"', Alpha=S("close", "relay", "unrelay", "join", "psub")), 100, 200),
-        ("triples-evh1", dict(NG=3, ProName='"evh1"', Alpha=S("close", "evh", "evcancel", "sub")), 64, 64),
-        ("two-rounds-sub1", dict(NG=2, R=2, ProName='"sub1"', Alpha=S("close", "sub", "cancel", "next", "pub")), 150, 700),
-        ("two-rounds-idle", dict(NG=2, R=2, ProName='"joinA"', Alpha=S("close", "sub", "relay", "join", "psub")), 150, 700),
+        ("pairs-idle", dict(ProName='"joinA"', Alpha=S("join", "close", "sub", "psub", "relay", "evh", "pub", "ppub", "reg", "unreg", "lp")), 121, 200),
+        ("pairs-one-each", dict(ProName='"oneEach"', Alpha=S(*CALL_OPS)), 144, 200),
+        ("pairs-busy", dict(ProName='"busyA"', Alpha=S("close", "sub", "cancel", "next", "relay", "unrelay", "evcancel", "pub")), 121, 400),
+        ("pairs-released", dict(ProName='"released"', Alpha=S("close", "cancel", "unrelay", "next", "sub", "pub", "join")), 64, 200),
+        ("pairs-two-generations", dict(ProName='"twoGen"', Alpha=S("close", "sub", "cancel", "pub", "next", "relay", "join")), 80, 200),
+        ("triples-sub1", dict(NG=3, ProName='"sub1"', Alpha=S("close", "sub", "cancel", "next", "pub", "psub")), 80, 400),
+        ("triples-relay1", dict(NG=3, ProName='"relay1"', Alpha=S("close", "relay", "unrelay", "join", "psub")), 60, 200),
+        ("triples-evh1", dict(NG=3, ProName='"evh1"', Alpha=S("close", "evh", "evcancel", "sub")), 40, 64),
+        ("two-rounds-sub1", dict(NG=2, R=2, ProName='"sub1"', Alpha=S("close", "sub", "cancel", "next", "pub")), 80, 700),
+        ("two-rounds-idle", dict(NG=2, R=2, ProName='"joinA"', Alpha=S("close", "sub", "relay", "join", "psub")), 80, 700),
     ]
 
 
@@ -599,6 +608,8 @@ def norm_conc(l):
         return {"e": "reset", "scn": l["scn"], "cfg": {"router": l["cfg"]["router"], "idfn": l["cfg"]["idfn"]}}
     if e == "call":
         return {"e": "call", "scn": l["scn"], "id": l["id"], "g": l["g"], "op": full(l["op"])}
+    if e == "release":
+        return {"e": "release", "scn": l["scn"], "slow": bool(l.get("slow"))}
     return l
 
 
@@ -613,6 +624,10 @@ def same_unrelay_overlap(scn):
 
 
 def run_conc_level(ctx, rng, binp, seen, only=None):
+    return validate_conc(ctx, replay_conc(ctx, rng, binp, only), seen)
+
+
+def replay_conc(ctx, rng, binp, only=None):
     if only is None:
         scns, gs, gt, classes = build_conc_scenarios(ctx, rng)
     else:
@@ -639,6 +654,9 @@ def run_conc_level(ctx, rng, binp, seen, only=None):
         raise vlib.Inconclusive("driver TestX09Conc produced no history")
     noq = [h for h in hist if any(l["e"] == "noquiesce" for l in h)]
     hist = [h for h in hist if not any(l["e"] == "noquiesce" for l in h)]
+    slow = sum(1 for h in hist for l in h if l["e"] == "release" and l["slow"])
+    if slow:
+        ctx.notes.append("%d round(s) in which a call finished only in the 200 ms grace period after the goroutine dump looked quiescent" % slow)
     if noq:
         ctx.notes.append("%d of %d concurrent histories dropped: quiescence was not reached within 10 s (machine load)" % (len(noq), len(noq) + len(hist)))
     if len(noq) > max(3, len(hist) // 20):
@@ -646,7 +664,20 @@ def run_conc_level(ctx, rng, binp, seen, only=None):
     if not dead and len(hist) + len(noq) != len(scns) * reps:
         raise vlib.Inconclusive("driver TestX09Conc recorded %d of %d histories" % (len(hist) + len(noq), len(scns) * reps))
     ctx.log("TestX09Conc: %d histories, %d lines" % (len(hist), lines))
-    rej, acc, states = vlib.validate_by_cursor(ctx, FAMILY, "TopicApiLin", "TopicApiLin.cfg", hist, chunk=max(60, -(-len(hist) // 4)), max_rejects=40, name="tv-conc")
+    return dict(scns=scns, gs=gs, gt=gt, classes=classes, hist=hist, lines=lines)
+
+
+def validate_conc(ctx, r, seen):
+    scns, gs, gt, classes, hist, lines = (r[k] for k in ("scns", "gs", "gt", "classes", "hist", "lines"))
+    # histories of the input class of finding X09-F2 go last and in small chunks: every rejection costs a re-run of its chunk
+    sus = {id(h) for h in hist if same_unrelay_overlap(scns[h[0]["scn"] // 100])}
+    hist = [h for h in hist if id(h) not in sus] + [h for h in hist if id(h) in sus]
+    n_plain = len(hist) - len(sus)
+    rej, acc, states = vlib.validate_by_cursor(ctx, FAMILY, "TopicApiLin", "TopicApiLin.cfg", hist[:n_plain], chunk=max(60, -(-n_plain // 4)), max_rejects=40, name="tv-conc")
+    if sus:
+        rej_s, acc_s, st_s = vlib.validate_by_cursor(ctx, FAMILY, "TopicApiLin", "TopicApiLin.cfg", hist[n_plain:], chunk=12, max_rejects=12, name="tv-conc-sus")
+        rej += [(i + n_plain, k, inv) for (i, k, inv) in rej_s]
+        states += st_s
     # histories the intended machine cannot explain: does the code as found (RelayCancelFunc's flag race) explain them?
     overlap, hits = 0, {}
     for h in hist:
@@ -711,28 +742,36 @@ def run(ctx):
     rng = random.Random(ctx.seed)
     if ctx.replay:
         return run_replay(ctx)
+    # the model-level phase (TLC only) runs while the Go drivers replay the scenarios; the trace validations (TLC again) follow it
+    mc_pool = cf.ThreadPoolExecutor(max_workers=1)
     if "nomc" in DEV:
-        states, transitions, mc_summary = 0, 0, {"skipped": True}
+        mc_fut = None
         ctx.notes.append("model-level phase skipped (VERIF_X09_DEV)")
     else:
-        ctx.log("model checking")
-        states, transitions, mc_summary = model_checking(ctx)
-        ctx.log("MC ok: %d configurations, %d must-fail" % (len(mc_summary), sum(1 for v in mc_summary.values() if v[3] == "fail")))
+        ctx.log("model checking (in the background)")
+        mc_fut = mc_pool.submit(model_checking, ctx)
     binp = build_driver(ctx)
     seen = {}
+    seq_r = replay_seq(ctx, rng, binp) if "noseq" not in DEV else None
+    conc_r = replay_conc(ctx, rng, binp) if "noconc" not in DEV else None
+    if mc_fut is None:
+        states, transitions, mc_summary = 0, 0, {"skipped": True}
+    else:
+        states, transitions, mc_summary = mc_fut.result()
+        ctx.log("MC ok: %d configurations, %d must-fail" % (len(mc_summary), sum(1 for v in mc_summary.values() if v[3] == "fail")))
     if "noseq" in DEV:
         ctx.notes.append("sequential level skipped (VERIF_X09_DEV)")
         seq = {"states": 0, "transitions": 0, "scenarios": 0, "lines": 0, "nontrivial": 0, "tags": {t for l in SEQ_OBLIGATIONS.values() for t in l},
                "classes": {}, "hits": {}, "sample": {}, "viols": 0}
     else:
-        seq = run_seq_level(ctx, rng, binp, seen)
+        seq = validate_seq(ctx, seq_r, seen)
     ctx.log("TopicApiTrace: %d predicate failures on %d scenarios (%d lines)" % (seq["viols"], seq["scenarios"], seq["lines"]))
     if "noconc" in DEV:
         ctx.notes.append("concurrent level skipped (VERIF_X09_DEV)")
         conc = {"states": 0, "transitions": 0, "histories": 0, "lines": 0, "overlapping": 0, "classes": {}, "hits": {k: 1 for k in CONC_OBLIGATIONS},
                 "rejected": 0, "sample": {}}
     else:
-        conc = run_conc_level(ctx, rng, binp, seen)
+        conc = validate_conc(ctx, conc_r, seen)
     ctx.log("TopicApiLin: %d of %d histories not linearizable; failures by signature %s" % (
         conc["rejected"], conc["histories"], json.dumps({k[0] + " " + k[1]: n for k, n in seen.items()})))
     missing = unmet(SEQ_OBLIGATIONS, seq["tags"], "seq") + ["conc: never observed: " + k for k in CONC_OBLIGATIONS if not conc["hits"].get(k)]
